@@ -21,6 +21,7 @@ func Run(ctx *core.Ctx) {
 	PositionFamily(ctx)
 	LiteralFamily(ctx)
 	SpecialFamily(ctx)
+	FloatTextFamily(ctx)
 	RandomTraces(ctx, ctx.Pick(4000, 150000))
 }
 
